@@ -190,8 +190,10 @@ def main(argv=None):
     n_new = sum(c for k, c in m["viol_counts"].items() if (prop, k.split("|", 1)[1]) not in known_keys)
     n_known = sum(c for k, c in m["viol_counts"].items() if (prop, k.split("|", 1)[1]) in known_keys)
 
-    for key in sorted(known_hit):
-        print("KNOWN-FINDING: property=%s %s [key=%s]" % (prop, known_keys[(prop, key)]["what"], key))
+    # every listed finding of this property is announced on every run (observed or not); a listed finding never fails the run
+    for (kp, key), entry in sorted(known_keys.items()):
+        if kp == prop:
+            print("KNOWN-FINDING: property=%s %s [key=%s observed_in_this_run=%s]" % (prop, entry["what"], key, "yes" if key in known_hit else "no"))
 
     rdir = os.path.join(VERIF, "replays", prop)
     printed = set()
